@@ -18,8 +18,9 @@
                                              -> OK:<wire length>.<checksum of the serialised bytes>.<1 iff parse+decrypt returns the message>,...
                                                 for the message lengths start, start+step, ... (one ECDH per direction for the whole case)
      ecies.flip     b apub ser haspk bit     -> <decrypt of ser>,<decrypt of ser with that bit flipped>
-     ecies.self     d comp msg               -> OK:<serialised>;<message>   (PrivateKey::encrypt_message / decrypt_message)
-     ecies.pub      a bpub msg               -> OK:<serialised>             (PublicKey::encrypt_message)
+     ecies.self     d comp msg               -> OK:<serialised>;<message via the object>;<message via bytes>   (PrivateKey::encrypt_message / decrypt_message)
+     ecies.pub      a b bcomp msg            -> the same for PublicKey(b)::encrypt_message(msg, a) and PrivateKey(b)::decrypt_message
+     ecies.keys     d pub                    -> OK:<iv>;<ke>;<km>           (ECIES::derive_cipher_keys)
      ecies.ephemeral b msg                   -> OK:<message>;<1 iff two calls embed different sender keys>
                                                 (random sender key: behavioural round trip through bytes; the model runs one fixed
                                                  ephemeral scalar, any valid one gives the same output by C11_decrypt_with_extracted_key) *)
@@ -106,13 +107,32 @@ Definition run (op : string) (args : list string) : string :=
       | None, _, _, _ | _, KBad, _, _ | _, _, None, _ | _, _, _, None => "BADARG"
       | _, _, _, _ => "ERR|-|-"
       end
-  | "ecies.pub", [a; bp; m] =>
-      match arg_priv a, arg_pub bp, expand m with
-      | KGood d, KGood (pb, B), Some msg =>
-          out3 (show_o (fun c => "OK:" +++ show_bytes (to_bytes c)) (pub_encrypt_message O pb msg d))
-               (match bie1_encrypt E d B true msg with Some s => "OK:" +++ show_bytes s | None => "ERR" end) "-"
-      | KBad, _, _ | _, KBad, _ | _, _, None => "BADARG"
-      | _, _, _ => "ERR|-|-"
+  | "ecies.pub", [a; b; bc; m] =>
+      (* PublicKey(b, encoding bc)::encrypt_message(msg, a); then PrivateKey(b)::decrypt_message on the object and through bytes *)
+      match arg_priv a, arg_priv b, arg_bool bc, expand m with
+      | KGood da, KGood db, Some bcomp, Some msg =>
+          let pb := to_public_key O db bcomp in
+          let pa := to_public_key O da true in
+          out3 (show_o (fun c => "OK:" +++ show_bytes (to_bytes c) +++ ";" +++
+                                 match priv_decrypt_message O db c pa with Ok p => show_bytes p | _ => "ERR" end +++ ";" +++
+                                 match (do c' <- from_bytes O (to_bytes c) true; priv_decrypt_message O db c' pa) with
+                                 | Ok p => show_bytes p | _ => "ERR" end)
+                       (pub_encrypt_message O pb msg da))
+               (match bie1_encrypt E da (ec_smul E db (ec_G E)) true msg with
+                | Some s => "OK:" +++ show_bytes s +++ ";" +++ show_bytes msg +++ ";" +++ show_bytes msg | None => "ERR" end) "-"
+      | KInvalid, _, _, _ | _, KInvalid, _, _ => "ERR|-|-"
+      | _, _, _, _ => "BADARG"
+      end
+  | "ecies.keys", [d; p] =>
+      (* ECIES::derive_cipher_keys *)
+      match arg_priv d, arg_pub p with
+      | KGood dd, KGood (pb, B) =>
+          out3 (show_o (fun k => "OK:" +++ show_keys k) (derive_cipher_keys O dd pb))
+               (if ec_is_inf E (ec_smul E dd B) then "ERR"
+                else let '(iv, ke, km) := key_schedule E (ec_smul E dd B) in
+                     "OK:" +++ hex_of_bytes iv +++ ";" +++ hex_of_bytes ke +++ ";" +++ hex_of_bytes km) "-"
+      | KBad, _ | _, KBad => "BADARG"
+      | _, _ => "ERR|-|-"
       end
   | "ecies.decrypt", [b; ap; s; h] =>
       match arg_priv b, arg_pub ap, expand s, arg_bool h with
@@ -209,10 +229,12 @@ Definition run (op : string) (args : list string) : string :=
       | KGood d, Some comp, Some msg =>
           let own := to_public_key O d comp in
           out3 (show_o (fun c => "OK:" +++ show_bytes (to_bytes c) +++ ";" +++
-                                 match priv_decrypt_message O d c own with Ok p => show_bytes p | _ => "ERR" end)
+                                 match priv_decrypt_message O d c own with Ok p => show_bytes p | _ => "ERR" end +++ ";" +++
+                                 match (do c' <- from_bytes O (to_bytes c) true; priv_decrypt_message O d c' own) with
+                                 | Ok p => show_bytes p | _ => "ERR" end)
                        (priv_encrypt_message O d comp msg))
                (match bie1_encrypt E d (ec_smul E d (ec_G E)) true msg with
-                | Some s => "OK:" +++ show_bytes s +++ ";" +++ show_bytes msg | None => "ERR" end) "-"
+                | Some s => "OK:" +++ show_bytes s +++ ";" +++ show_bytes msg +++ ";" +++ show_bytes msg | None => "ERR" end) "-"
       | KBad, _, _ | _, None, _ | _, _, None => "BADARG"
       | _, _, _ => "ERR|-|-"
       end
@@ -231,7 +253,7 @@ Definition run (op : string) (args : list string) : string :=
       | _, _ => "ERR|-|-"
       end
   | _, _ => match op with
-            | "ecies.mem" | "ecies.sweep" | "ecies.encrypt" | "ecies.encrypt_wif" | "ecies.pub" | "ecies.decrypt" | "ecies.parse" | "ecies.flip" | "ecies.self" | "ecies.ephemeral" => "BADARG"
+            | "ecies.keys" | "ecies.mem" | "ecies.sweep" | "ecies.encrypt" | "ecies.encrypt_wif" | "ecies.pub" | "ecies.decrypt" | "ecies.parse" | "ecies.flip" | "ecies.self" | "ecies.ephemeral" => "BADARG"
             | _ => "BADOP"
             end
   end.
